@@ -1,0 +1,18 @@
+//go:build verif
+
+package rules
+
+import "github.com/projectcalico/calico/felix/generictables"
+
+// VerifInterfaceNameDispatchChains exposes interfaceNameDispatchChains, the name-list level of
+// the dispatch renderers (WorkloadDispatchChains / HostDispatchChains flatten their endpoint
+// maps into such a list in map-iteration order), so that the /verif checks can hand it names in
+// a chosen, replayable order.
+func (r *DefaultRuleRenderer) VerifInterfaceNameDispatchChains(
+	names []string,
+	fromEndpointPfx, toEndpointPfx, dispatchFromEndpointChainName, dispatchToEndpointChainName string,
+	fromEndRules, toEndRules []generictables.Rule,
+) []*generictables.Chain {
+	return r.interfaceNameDispatchChains(names, fromEndpointPfx, toEndpointPfx,
+		dispatchFromEndpointChainName, dispatchToEndpointChainName, fromEndRules, toEndRules)
+}
